@@ -102,6 +102,19 @@ func eqVal(a, b ssa.Value) bool {
 	ca, ok1 := a.(*ssa.Call)
 	cb, ok2 := b.(*ssa.Call)
 	if ok1 && ok2 {
+		// the numeric accessors of reflect are pure: the same accessor of the same reflect.Value
+		na, nb := an.CallName(&ca.Call), an.CallName(&cb.Call)
+		if na == nb && len(ca.Call.Args) == 1 && len(cb.Call.Args) == 1 {
+			switch na {
+			case "(reflect.Value).Int", "(reflect.Value).Uint", "(reflect.Value).Len":
+				if rv, isPar := ca.Call.Args[0].(*ssa.Parameter); isPar && rv == cb.Call.Args[0] {
+					return true
+				}
+				if sameRV(ca.Call.Args[0], cb.Call.Args[0]) {
+					return true
+				}
+			}
+		}
 		ba, ok3 := ca.Call.Value.(*ssa.Builtin)
 		bb, ok4 := cb.Call.Value.(*ssa.Builtin)
 		if ok3 && ok4 && ba.Name() == bb.Name() && (ba.Name() == "len" || ba.Name() == "cap") {
